@@ -49,7 +49,7 @@ def main(tier):
              "rm target, switch .do variant; in some worlds also: redo-ifchange interrupted by a kill of the whole tree at a script boundary (every target x every position of its script; at most one kill per history)} per world, replayed on the real binary; states deduplicated by canonical "
              "key (files + Files/Deps rows with run ids rank-abstracted + reference-model summary); oracle: after every "
              "exit-0 build command every target in the requested closure equals the from-scratch evaluation",
-        assumptions=["sources are not edited while a command runs", "flat single-directory worlds",
+        assumptions=["sources are not edited while a command runs", "single-directory worlds, plus one with a rule of the parent directory building into a sub-directory (autodir)",
                      "graphs: curated mechanisms + (thorough) all rooted DAGs with <=3 targets, <=2 sources"],
         budget_s=900 if tier == "quick" else 6000)
 
